@@ -99,7 +99,10 @@ Record lcfg := mkCfg {
 
 Inductive case :=
 | CSched (reqs machs : list key) (o : sched_obs)
-| CLive (c : lcfg) (steps : list (lev * lobs)) (status : Z).   (* status 0 = ran to the end *)
+| CLive (c : lcfg) (steps : list (lev * lobs)) (status : Z)    (* status 0 = ran to the end *)
+(* (iii) a direct call of Run taking exit x with [procs] procs on a machine whose
+   taskProcs was [before]; [after] is taskProcs once Run has returned *)
+| CRun (x : run_exit) (procs machprocs before after : Z).
 
 Definition health_code (h : health) : nat :=
   match h with HOk => 0%nat | HProbation => 1%nat | HLost => 2%nat end.
@@ -278,6 +281,18 @@ Fixpoint live_ok (c : lcfg) (st : spec_st) (steps : list (lev * lobs)) : bool :=
 
 Definition sp_init : spec_st := mkSp [] [] 0 [] [] [].
 
+(* ================================================================== *)
+(* (iii) Run's exits                                                   *)
+(* ================================================================== *)
+
+(* the path model: what stays on the machine is what no Done call returned *)
+Definition run_exact (x : run_exit) (procs mp before after : Z) : bool :=
+  run_granted x && (0 <? procs) && (procs <=? mp)
+  && (after - before =? procs * (1 - Z.of_nat (done_count x))).
+
+(* every proc handed out is returned when the task ends *)
+Definition run_ok (before after : Z) : bool := after =? before.
+
 (* ---------- verdicts ---------- *)
 
 Definition case_exact (c : case) : bool :=
@@ -286,6 +301,7 @@ Definition case_exact (c : case) : bool :=
   | CLive cfg steps status =>
       (status =? 0) && cfg_exact cfg && live_exact (init_mgr (mgr_machprocs (c_maxprocs cfg) (c_num cfg) (c_den cfg))
                                         (mgr_maxp (c_maxprocs cfg) (c_num cfg) (c_den cfg) (c_maxp cfg))) steps
+  | CRun x procs mp before after => run_exact x procs mp before after
   end.
 
 Definition case_ok (c : case) : bool :=
@@ -293,6 +309,7 @@ Definition case_ok (c : case) : bool :=
   | CSched reqs machs o => sched_ok reqs machs o
   | CLive cfg steps status =>
       (status =? 0) && (c_machprocs cfg =? spec_cap cfg) && live_ok cfg sp_init steps
+  | CRun x procs mp before after => run_ok before after
   end.
 
 Definition mismatches (cs : list case) : list nat := bad_indices case_exact cs.
